@@ -51,7 +51,9 @@ C01(c) == C01one(c, c.res, "") \o C01one(c, c.resdf, " (default field)")
 \* C12: JSON round trip of every returned expression
 C12one(c, key, r, tag) == IF key \notin DOMAIN c THEN <<>>
                           ELSE IF RT!RtVerdict(c[key], r.tree) = "" THEN <<>>
-                          ELSE <<Fail("C12", c, RT!RtVerdict(c[key], r.tree) \o tag, "none")>>
+                          ELSE <<Fail("C12", c, RT!RtVerdict(c[key], r.tree) \o tag,
+                                      IF c[key].dec = "ok" /\ KF!KF_C12_NegativeZero(r.tree) THEN "C12-negative-zero"
+                                      ELSE IF c[key].dec = "ok" /\ KF!KF_C12_BigIntBound(r.tree) THEN "C12-big-int-range-bound" ELSE "none")>>
 C12(c) == C12one(c, "rt", c.res, "") \o C12one(c, "rtdf", c.resdf, " (default field)")
 \* conformance of the codec MECH (ExprJson.tla): the decoded tree is what the model says (drift, not a verdict)
 CodecConf(c, key, r) == key \notin DOMAIN c \/ c[key].dec # "ok" \/ c[key].tree2 = EJ!RoundTripped(r.tree, c[key].leaves)
